@@ -10,7 +10,6 @@ import (
 	"strings"
 	"sync/atomic"
 	"testing"
-	"testing/synctest"
 	"time"
 )
 
@@ -34,6 +33,9 @@ func runOne(t *testing.T, prop, tier string, seed uint64, ch *Choice, params map
 	}
 	runActive.Store(time.Now().UnixNano())
 	defer runActive.Store(0)
+	if !haveBubble {
+		rc.Stats.Inc("runs_hosted_by_build_with_repository_toolchain", 1)
+	}
 	// util.Scatter sizes its worker pool from GOMAXPROCS, so the process-wide setting is an input of the
 	// run: it is pinned here and drawn from the choice source by the runners that vary it.
 	prevProcs := runtime.GOMAXPROCS(4)
@@ -67,7 +69,7 @@ func runOne(t *testing.T, prop, tier string, seed uint64, ch *Choice, params map
 				panic(r)
 			}
 		}()
-		synctest.Test(t, body)
+		bubbleTest(t, body)
 	}()
 	return rc
 }
